@@ -2,6 +2,7 @@ SPECIFICATION Spec
 CONSTANTS
   Node = {"n1", "n2", "n3", "n4"}
   Active = {"n1", "n2", "n3"}
+  Class = {"dsn"}
   MaxHops = 4
   MaxPurges = 2
   MaxLoss = 1
